@@ -4,6 +4,8 @@ codec   engine C: opcode x mask flag x masking key x payload length; the
         library's writer (serializeHeader/serializeDataHeader and
         writeFrameFactory into a capture socket) against an independent RFC
         6455 encoder, and the library's reader on the library's own output
+factory the same lengths through every public constructor (Text with 1-4-byte
+        characters, Binary, Ping, Pong, Close) and handler.send()/close()
 stream  engine B: sequences of 1-3 masked client frames; EVERY segmentation
         of the byte stream (2^(N-1) for N <= 18 bytes, <= 2/3 cuts otherwise)
         fed chunk by chunk to the real WebSocketTemporaryHandler.__call__
@@ -157,6 +159,105 @@ def codec_work(lens):
     return total, ok, viols
 
 
+def texts_of(n):
+    """strings whose UTF-8 encoding is exactly n bytes: 1-, 2-, 3- and 4-byte characters and a mix"""
+    out = [("ascii", "".join(chr(0x61 + (i % 26)) for i in range(n)))]
+    for name, chx in (("2-byte", "\u00e9"), ("3-byte", "\u20ac"), ("4-byte", "\U0001F600")):
+        w = len(chx.encode("utf-8"))
+        if n >= w:
+            out.append((name, chx * (n // w) + "a" * (n % w)))
+    if n >= 10:
+        mix = "a\u00e9\u20ac\U0001F600"      # 10 bytes, 4 characters
+        out.append(("mixed", mix * (n // 10) + "z" * (n % 10)))
+    return out
+
+
+def factory_frames(n):
+    """(label, opcode, frame, expected payload bytes) for every public frame constructor, payload of n bytes"""
+    pl = payload_of(n)
+    out = [("Binary()", WebSocketOpCode.Binary, lambda: WebSocketFrame.Binary(pl), pl),
+           ("Ping()", WebSocketOpCode.Ping, lambda: WebSocketFrame.Ping(pl), pl),
+           ("Pong()", WebSocketOpCode.Pong, lambda: WebSocketFrame.Pong(pl), pl)]
+    for name, txt in texts_of(n):
+        out.append(("Text(%s)" % name, WebSocketOpCode.Text, (lambda t: lambda: WebSocketFrame.Text(t))(txt), txt.encode("utf-8")))
+    if n >= 2:
+        for status in (1000, 200, 0, 65535):
+            out.append(("Close()", WebSocketOpCode.Close, (lambda st: lambda: WebSocketFrame.Close(st, pl[:n - 2]))(status), struct.pack("!H", status) + pl[:n - 2]))
+    return out
+
+
+def factory_work(lens):
+    """frames built by the library's own constructors (and by handler.send / handler.close), written by the library's
+    writer, against the RFC encoder, and parsed back by the library's reader"""
+    viols = {}
+    total = 0
+    ok = 0
+
+    def flag(oracle, sig, wit, msg):
+        viols.setdefault((oracle, sig), [0, wit, msg])[0] += 1
+
+    for n in lens:
+        for label, op, make, expect in factory_frames(n):
+            for mask in (0, 1):
+                total += 1
+                key = KEYS[3] if mask else KEYS[0]
+                wit = {"part": "factory", "constructor": label, "mask": mask, "length": n}
+                want = ref_encode(op.value, expect, mask, key)
+                try:
+                    f = make()
+                    f.flags.mask = mask
+                    f.masking_key = key
+                    sock = CaptureSocket()
+                    writeFrameFactory(sock)(f)
+                    got = b"".join(sock.out)
+                except Exception as e:
+                    flag("write-raises", "writing a frame built by WebSocketFrame.%s raises %s" % (label, type(e).__name__), wit, repr(e))
+                    continue
+                if got != want:
+                    hl = len(want) - len(expect)
+                    flag("factory-encoding", "frame built by WebSocketFrame.%s is not the RFC 6455 encoding of its payload" % label, wit,
+                         "header %s, RFC %s; %d bytes on the wire, RFC %d" % (got[:hl].hex(), want[:hl].hex(), len(got), len(want)))
+                    continue
+                try:
+                    buf = WebSocketTemporaryRingBuffer(FakeRequest())
+                    buf._push(got)
+                    fr = readFrameFactory(buf)()
+                except Exception as e:
+                    flag("parse-raises", "parsing a frame built by WebSocketFrame.%s raises %s" % (label, type(e).__name__), wit, repr(e))
+                    continue
+                if fr.flags.opcode != op or fr.payload_length != len(expect) or bytes(fr.payload) != expect or buf.buf != b"":
+                    flag("parse-back", "frame built by WebSocketFrame.%s does not parse back to itself" % label, wit,
+                         "len %s payload-equal %s rest %d" % (fr.payload_length, bytes(fr.payload) == expect, len(buf.buf)))
+                    continue
+                ok += 1
+        # the server's own send path: handler.send(str) then handler.close()
+        for name, txt in texts_of(n):
+            total += 1
+            wit = {"part": "factory", "constructor": "handler.send(%s)" % name, "mask": 0, "length": n}
+            req = FakeRequest()
+            handler = WebSocketTemporaryHandler(("1.2.3.4", 5), {}, {}, WebSocketTemporaryRingBuffer(req), Endpoint())
+            try:
+                handler.send(txt)
+                handler.send("next")
+                handler.close()
+                handler.close()
+            except Exception as e:
+                flag("write-raises", "handler.send/close raises %s" % type(e).__name__, wit, repr(e))
+                continue
+            got = b"".join(req.written)
+            want = (ref_encode(1, txt.encode("utf-8"), 0, KEYS[0]) + ref_encode(1, b"next", 0, KEYS[0]) +
+                    ref_encode(8, struct.pack("!H", 200) + b"OK", 0, KEYS[0]))
+            if got != want:
+                flag("factory-encoding", "bytes written by handler.send(%s text)/close are not the RFC 6455 frames" % name, wit,
+                     "%d bytes written, RFC %d; first difference at %d" % (len(got), len(want), next((i for i in range(min(len(got), len(want))) if got[i] != want[i]), min(len(got), len(want)))))
+                continue
+            ok += 1
+    return total, ok, viols
+
+
+factory_work_init = codec_work_init
+
+
 # ---------------------------------------------------------------------------
 # stream
 
@@ -181,6 +282,10 @@ def frame_sequences(tier):
             if any(op == WebSocketOpCode.Close for op, _ in combo[:-1]):
                 continue
             seqs.append(list(combo))
+    seqs.append([(WebSocketOpCode.Text, -3)])
+    seqs.append([(WebSocketOpCode.Text, -4), (WebSocketOpCode.Text, -2)])
+    seqs.append([(WebSocketOpCode.Binary, 1), (WebSocketOpCode.Text, -13), (WebSocketOpCode.Text, 1)])
+    seqs.append([(WebSocketOpCode.Text, -126), (WebSocketOpCode.Ping, 0)])
     seqs.append([(WebSocketOpCode.Binary, 126)])
     seqs.append([(WebSocketOpCode.Text, 126), (WebSocketOpCode.Binary, 1)])
     seqs.append([(WebSocketOpCode.Binary, 5), (WebSocketOpCode.Text, 200), (WebSocketOpCode.Close, 2)])
@@ -189,6 +294,8 @@ def frame_sequences(tier):
 
 
 def text_payload(n):
+    if n < 0:       # -n bytes of multi-byte characters
+        return texts_of(-n)[-1][1].encode("utf-8")
     return bytes(0x61 + (i % 26) for i in range(n))
 
 
@@ -310,6 +417,15 @@ def run(tier, seed):
             if key not in acc:
                 acc[key] = [0, wit, msg]
             acc[key][0] += cnt
+    fls = [n_ for n_ in ls if n_ <= 70000]
+    res = core.pmap("checks.c18", "factory_work", [fls[i::48] for i in range(48) if fls[i::48]], initargs=(tier,))
+    f_total = sum(r[0] for r in res)
+    f_ok = sum(r[1] for r in res)
+    for r in res:
+        for key, (cnt, wit, msg) in r[2].items():
+            if key not in acc:
+                acc[key] = [0, wit, msg]
+            acc[key][0] += cnt
     n = 32
     res = core.pmap("checks.c18", "stream_work", [((k + seed) % n, n) for k in range(n)], initargs=(tier,))
     s_total = sum(r[0] for r in res)
@@ -322,10 +438,11 @@ def run(tier, seed):
     for (oracle, sig), (cnt, wit, msg) in sorted(acc.items()):
         rep.add_violation(core.Violation(oracle, sig, wit, "%s [%d cases]" % (msg[:300], cnt)))
     rep.coverage = {
-        "states": s_states + c_ok, "transitions": s_total + c_total, "traces_validated_against_impl": s_total,
-        "codec_frames": c_total, "codec_exact": c_ok, "codec_lengths": len(ls), "stream_segmentations": s_total, "stream_frame_sequences": len(frame_sequences(tier)),
-        "evaluations": c_total + s_total, "distinct_nontrivial": s_states + c_ok,
+        "states": s_states + c_ok + f_ok, "transitions": s_total + c_total + f_total, "traces_validated_against_impl": s_total,
+        "codec_frames": c_total, "codec_exact": c_ok, "factory_frames": f_total, "factory_exact": f_ok, "codec_lengths": len(ls), "stream_segmentations": s_total, "stream_frame_sequences": len(frame_sequences(tier)),
+        "evaluations": c_total + s_total + f_total, "distinct_nontrivial": s_states + c_ok + f_ok,
         "rule": "codec: %d payload lengths (all 125/126/127 and 65535/65536 boundaries%s) x 5 opcodes x mask 0/1 x masking keys, writer vs independent RFC 6455 encoder and reader on the writer's output; "
+                "factory: the same lengths through every public constructor (Text with 1/2/3/4-byte characters and a mix, Binary, Ping, Pong, Close x 4 status codes) and through handler.send()/close(); "
                 "stream: %d sequences of 1-3 masked client frames, every segmentation for N<=18 bytes (2^(N-1)), <=%d cuts otherwise; states = distinct (sequence, #cuts, #frames delivered)" % (
                     len(ls), "" if tier == "quick" else ", every length 0..2000, 65000..66200, every 97th to 70000", len(frame_sequences(tier)), 2 if tier == "quick" else 3),
         "exhaustive": True,
@@ -340,6 +457,9 @@ def replay(witness):
         global _TIER
         _TIER = "thorough"
         total, ok, viols = codec_work([witness["length"]])
+        return [core.Violation(k[0], k[1], witness, v[2]) for k, v in viols.items()]
+    if witness.get("part") == "factory":
+        total, ok, viols = factory_work([witness["length"]])
         return [core.Violation(k[0], k[1], witness, v[2]) for k, v in viols.items()]
     if witness.get("part") == "stream":
         seq = [(WebSocketOpCode(op), ln) for op, ln in witness["frames"]]
